@@ -152,6 +152,16 @@ CHECKS = {
         "Trusted: Fraction check that every affine image is exact; first-occurrence factorisation for partitions.",
         "DESIGN.md §4 C11",
     ),
+    "C10": (
+        "differential PBT across variants executed in worker processes with different PYTHONHASHSEED values; "
+        "harness-owned Pool shim for schedules (pickled copies, generated execution/completion orders) + sampled real pools",
+        "For every generated frame 8-10 fits: reference, every hash seed, single-feature and subset fits, permuted "
+        "feature lists and columns, n_jobs 2/3 via the shim and via the real multiprocessing.Pool; per feature all "
+        "must agree on kept/dropped, values_orders and transform output. Exploration; schedules of the real pool are "
+        "only sampled (a stuck pool request times out as inconclusive).",
+        "Trusted: the shim's pickling isolation; JSON canonicalisation of results. Hash seeds sampled (3 quick / 5 thorough).",
+        "DESIGN.md §4 C10",
+    ),
     "C04": (
         "PBT with a reference oracle: table-first generated samples, transform(X_train) compared with the "
         "mapping recomputed from values_orders (list+content) only; metamorphic string-form probe",
